@@ -151,7 +151,9 @@ func (c *cluster) onWireMsg(m *streamMon, w *wireMsg) {
 		// C17 stability: a follower that believed in leader L before this (time-frozen,
 		// delivery-only) step and still does must refuse a request without transfer
 		// permission from anybody else, without moving its term
-		if !rq.transfer && c.deliveryStep && !c.blackbox && dst.sh != nil && dst.r != nil {
+		// (judged only when this request is all the node was handed in this step: with
+		// several, another one may have cleared and a third one restored its leader)
+		if !rq.transfer && c.deliveryStep && !c.blackbox && dst.sh != nil && dst.r != nil && c.net.deliveredTo[dst.host] == 1 {
 			if l0 := dst.sh.leader; l0 != 0 && l0 != rq.src && l0 != dst.id && dst.r.leader == l0 && dst.sh.state == Follower {
 				c.stats.class("stability-judged")
 				// (the term is judged by the function-level stability property, see votefn.go:
@@ -304,6 +306,12 @@ func (c *cluster) onTimeoutNowWritten(src *simNode, w *wireMsg) {
 		// written by the untracked RPC goroutine of a leadership that has ended
 		// meanwhile: not a designation by "the old leader" in the property's sense
 		c.stats.class("stale-timeoutnow")
+		return
+	}
+	if t := c.up(idOfHost(w.conn.to)); t != nil && t.r != nil && t.r.term > r.term {
+		// the sender is a stale leader: the target already follows a newer term and
+		// may have replaced what it had acknowledged to this one
+		c.stats.class("timeoutnow-from-deposed-leader")
 		return
 	}
 	// transfer in progress: the leader accepts no new entries, its last index is stable
